@@ -169,6 +169,29 @@ impl DiscoveredWriterData {
     }
 }
 
+#[cfg(feature = "verif_hooks")]
+#[doc(hidden)]
+impl DiscoveredWriterData {
+    /// Verification hook: construct a value from all of its fields.
+    pub fn verif_new(
+        dds_publication_data: PublicationBuiltinTopicData,
+        writer_proxy: WriterProxy,
+    ) -> Self {
+        Self {
+            dds_publication_data,
+            writer_proxy,
+        }
+    }
+    /// Verification hook: field access.
+    pub fn verif_dds_publication_data(&self) -> &PublicationBuiltinTopicData {
+        &self.dds_publication_data
+    }
+    /// Verification hook: field access.
+    pub fn verif_writer_proxy(&self) -> &WriterProxy {
+        &self.writer_proxy
+    }
+}
+
 #[cfg(test)]
 mod tests {
     use super::*;
